@@ -48,6 +48,10 @@ inductive Op
   | sig (v : Nat) (signed : Bool) (now : Int)     -- slashing HandleValidatorSignature for one vote of the last commit
   | jail (v : Nat) (now : Int)                     -- slashing Jail (evidence / slash proposal)
   | unjail (v : Nat) (now : Int)                   -- passed unjail proposal
+  | evidence (v : Nat) (now : Int) (known stale : Bool)
+      -- x/evidence HandleEquivocationEvidence for one item of RequestBeginBlock.ByzantineValidators: ignored when the
+      -- consensus key is unknown or the evidence is stale (older than BOTH max age limits); otherwise the offender is
+      -- jailed if it is not jailed yet — whatever its status — and JailUntil sets InactiveUntil to the block time
   | kPause (v : Nat)                               -- staking keeper Pause called directly (upgrade plan)
   | rankReset
 deriving Repr
@@ -107,6 +111,13 @@ def step (p : Params) (s : S) : Op → Option S
     match s.status v with
     | .jailed => some s
     | _ => some { demote s v .jailed with jailTime := upd s.jailTime v (some now) }
+  | .evidence v now known stale =>
+    if known = true ∧ stale = false then
+      match s.status v with
+      | .jailed => some { s with inactiveUntil := upd s.inactiveUntil v now }
+      | _ => some { demote s v .jailed with jailTime := upd s.jailTime v (some now),
+                                            inactiveUntil := upd s.inactiveUntil v now }
+    else some s
   | .unjail v now =>
     match s.status v, s.jailTime v with
     | .jailed, some jt =>
